@@ -97,4 +97,58 @@ def validateWarnings {T V : Type} (level : Nat) (concrete : T → Bool)
 def freshOuts {T V : Type} (keys : List String) : List (OutState T V) :=
   keys.map fun k => { key := k, type := none, value := none }
 
+/-! ## what the built graph carries for a requested output (`Graph.to_onnx`: `result_info`)
+
+`[var.unwrap_type()._to_onnx_value_info(name, concrete=concrete) for name, var in results]`:
+in order; `unwrap_type` raises `TypeError` on an untyped Var, `_assert_concrete` raises on a type that is
+not concrete when `concrete=True` (the default of `to_onnx_model` / `spox.build`). spox writes no
+`graph.value_info` for intermediate values: `graph.output` (and a body's outputs) is where a custom
+operator's declared type becomes part of the model. -/
+
+inductive ResErr where
+  | untyped (name : String)
+  | notConcrete (name : String)
+  deriving Repr, DecidableEq
+
+def resultInfo {T V : Type} (concrete : T → Bool) (requireConcrete : Bool) :
+    List (String × OutState T V) → Except ResErr (List (String × T))
+  | [] => .ok []
+  | (n, o) :: rest =>
+    match o.type with
+    | none => .error (.untyped n)
+    | some t =>
+      if requireConcrete && !concrete t then .error (.notConcrete n)
+      else match resultInfo concrete requireConcrete rest with
+        | .ok l => .ok ((n, t) :: l)
+        | .error e => .error e
+
+/-- a freshly created output Var of key `k` after `Node.inference` -/
+def outAfter {T V : Type} (check : T → V → Bool) (thook : List (String × T)) (vhook : List (String × V))
+    (k : String) : OutState T V :=
+  (mergeValue check vhook (mergeType thook { key := k, type := none, value := none })).1
+
+/-! ## `Node.__init__` — the plumbing around the hooks
+
+`self.outputs = self._init_output_vars()` (one fresh Var per declared output, `out_variadic` of them
+for the variadic field, keyed `field` / `field_i`), `self.inference(infer_types, propagate_values)`
+(a hook that is switched off contributes `{}`), `if validate: self.validate_types()`. -/
+
+structure Flags where
+  inferTypes : Bool
+  propValues : Bool
+  validate : Bool
+  deriving Repr, DecidableEq
+
+/-- keys of the output Vars: `(field, isVariadic)` in declaration order -/
+def outKeysOf (decl : List (String × Bool)) (nvar : Nat) : List String :=
+  decl.flatMap fun d =>
+    if d.2 then (List.range nvar).map (fun i => d.1 ++ "_" ++ toString i) else [d.1]
+
+def construct {T V : Type} (check : T → V → Bool) (thook : List (String × T)) (vhook : List (String × V))
+    (fl : Flags) (level : Nat) (concrete : T → Bool) (inTypes : List (Option T))
+    (decl : List (String × Bool)) (nvar : Nat) : List (OutState T V) × List Warn :=
+  let r := inference check (if fl.inferTypes then thook else []) (if fl.propValues then vhook else [])
+    (freshOuts (outKeysOf decl nvar))
+  (r.1, r.2 ++ (if fl.validate then validateWarnings level concrete inTypes r.1 else []))
+
 end Custom
